@@ -52,7 +52,7 @@ func genC13(c *Ctx, r *rng.R, i int) {
 		c.Fail("C13/"+name+"/panic", "panic: "+trunc(pm, 150), desc)
 		return
 	}
-	if modelable(args) && (err != nil || (stringsOKSafe(v) && !hasHugeNumber(v))) {
+	if modelable(args) && !hugeCount(args) && (err != nil || (stringsOKSafe(v) && !hasHugeNumber(v))) {
 		var argS []string
 		for _, a := range args {
 			argS = append(argS, cq.Val(a))
